@@ -54,9 +54,23 @@ def r1(ctx: Ctx) -> None:
         ctx.violated(s.caller, s.node, "book-local clock stepping is not used (books follow the market clock)", "no caller of OrderBook._update_time", s.caller.qualname)
 
 
-def _selector(l: Event) -> Optional[bool]:
+def _selector(l: Event, ctx: Optional[Ctx] = None) -> Optional[bool]:
     """True/False if the loop iterates only (non-)IndexMarket instances, None if unfiltered."""
     it = l.iter
+    # filter(pred, xs) / itertools.filterfalse(pred, xs) with a named predicate `return isinstance(x, IndexMarket)`
+    if it is not None and ctx is not None and it[0] == "call" and key(it[1]) in ("filter", "itertools.filterfalse", "filterfalse") and len(it[2]) == 2 and it[2][0][0] == "name":
+        g = ctx.program.functions.get(it[2][0][1])
+        if g is not None and len(g.params) == 1:
+            import ast as _ast
+
+            body = [x for x in g.node.body if not (isinstance(x, _ast.Expr) and isinstance(x.value, _ast.Constant))]
+            if len(body) == 1 and isinstance(body[0], _ast.Return) and body[0].value is not None:
+                v = body[0].value
+                pol = True
+                while isinstance(v, _ast.UnaryOp) and isinstance(v.op, _ast.Not):
+                    v, pol = v.operand, not pol
+                if isinstance(v, _ast.Call) and isinstance(v.func, _ast.Name) and v.func.id == "isinstance" and len(v.args) == 2 and isinstance(v.args[0], _ast.Name) and v.args[0].id == g.params[0] and _ast.unparse(v.args[1]).endswith("IndexMarket"):
+                    return pol if key(it[1]) == "filter" else not pol
     if it is not None and it[0] == "call" and key(it[1]) == "filter" and len(it[2]) == 2 and it[2][0][0] == "lambda":
         body = it[2][0][2]
         pol = True
@@ -81,9 +95,9 @@ def r2(ctx: Ctx) -> None:
         lps = loops(p)
         seq: List[Tuple[Optional[bool], str]] = []
         for l in lps:
-            base_sel = _selector(l)
+            base_sel = _selector(l, ctx)
             src = l.iter
-            if src is not None and src[0] == "call" and key(src[1]) == "filter":
+            if src is not None and src[0] == "call" and key(src[1]) in ("filter", "itertools.filterfalse", "filterfalse"):
                 src = src[2][1]
             elif src is not None and src[0] == "comp":
                 src = src[3][0][1]
